@@ -141,8 +141,8 @@ def contract(t):
     o.append('  loop 1 iter it')
     o.append('    invariant')
     o.append('      [C04.%s.inv]  entries@.len() == it.index@ && it.index@ <= entry_count' % name)
-    o.append('                      && reader.pos() == start + 16 + %d * it.index@' % W)
-    o.append('                      && %s_entries_at(reader.data(), start as int, entries@, it.index@ as int)' % name)
+    o.append('                      && reader.pos() == old(reader).pos() - 8 + 16 + %d * it.index@' % W)
+    o.append('                      && %s_entries_at(reader.data(), old(reader).pos() - 8, entries@, it.index@ as int)' % name)
     o.append('  end loop')
     o.append('')
     o.append('fn %s::write_box' % box)
